@@ -299,6 +299,22 @@ func TestC11Deterministic(t *testing.T) {
 		o.DistinctIncludedIDs = rapid.IntRange(0, 3).Draw(t, "sameids") != 0
 		c := gen.Document(t, o)
 
+		// The included list may first have been built through Include, in
+		// ascending ID order, before the caller put the list it wants there:
+		// what counts is what the document holds when it is marshaled.
+		if len(c.Doc.Included) > 1 && rapid.IntRange(0, 3).Draw(t, "via-include") == 0 {
+			wanted := c.Doc.Included
+			asc := append([]jsonapi.Resource{}, wanted...)
+			sort.SliceStable(asc, func(i, j int) bool { return asc[i].Get("id").(string) < asc[j].Get("id").(string) })
+
+			c.Doc.Included = nil
+			for _, res := range asc {
+				c.Doc.Include(res)
+			}
+
+			c.Doc.Included = wanted
+		}
+
 		// Resources may carry meta of their own (any JSON values, null
 		// included).
 		// (not the members of a soft collection: Add stores a snapshot of
